@@ -276,7 +276,7 @@ def run(args):
                 if args.transform_left else args.transform_right
         transform = file_interface.load_transform(tf_path)
         if args.invert_transform:
-            transform = lie.se3_inverse(transform)
+            transform = lie.sim3_inverse(transform)
         logger.debug(SEP)
         logger.debug("Applying a {}-multiplicative transformation:\n{}".format(
             tf_type, transform))
